@@ -1,6 +1,15 @@
 // Shared helpers for the numeric harnesses: PRNG (one splitmix64 state seeded by VERIF_SEED), stratified
 // generators aimed at the case splits of the proofs, an oracle scalar type, JSON reporting.
 #pragma once
+// opt-in: Eigen's assertions (index/size checks) become exceptions, so that a library change that runs out of bounds
+// is reported as a failing case with its input instead of aborting the whole harness
+#if defined(HV_EIGEN_ASSERT_THROWS) && !defined(eigen_assert)
+#include <stdexcept>
+#define eigen_assert(x)                                           \
+  do {                                                            \
+    if (!(x)) throw std::logic_error("eigen_assert failed: " #x); \
+  } while (0)
+#endif
 #include <cmath>
 #include <cstdint>
 #include <cstdio>
@@ -87,8 +96,13 @@ inline void rand_axis(Rng & r, int k, double * ax)
   for (int i = 0; i < k; ++i) ax[i] /= nn;
 }
 
+struct Report;
+inline Report * g_rep = nullptr;   // the live report (for the crash guard)
+
 struct Report
 {
+  Report() { g_rep = this; }
+  std::string current;             // what is being evaluated (json fragment), reported if an exception escapes
   std::string property;
   long evaluations = 0;
   std::map<std::string, long> strata;
@@ -180,6 +194,25 @@ struct Report
     std::printf("]}\n");
   }
 };
+
+// run the harness body; an escaping exception (Eigen assertion, std::bad_alloc, ...) becomes a failure record
+template<typename F>
+int guard(F && body)
+{
+  try {
+    return body();
+  } catch (const std::exception & e) {
+    if (g_rep) {
+      std::string w = e.what();
+      for (auto & ch : w)
+        if (ch == '"' || ch == '\\') ch = '\'';
+      g_rep->fail("{\"check\":\"crash\",\"what\":\"" + w + "\",\"while\":" + (g_rep->current.empty() ? "null" : g_rep->current) + "}", "crash");
+      g_rep->print();
+      return 0;
+    }
+    throw;
+  }
+}
 
 template<typename V>
 std::string jvec(const V & v)
